@@ -528,6 +528,145 @@ theorem accepted_passes_gate (p : PBlock) (ext : Option Nat) (b : TBlock) (h : p
                         | false => rfl
                         | true => exact absurd ⟨hv, he⟩ htp
 
+/-! ## snapshot blocks (C13) -/
+
+theorem blockFlags_extKey (t33 : Term → Bool) (o33 o31 : Op → Bool) (a r : Bool) (b : Block) (e : Option Nat) :
+    blockFlags t33 o33 o31 a r ⟨b.facts, b.rules, b.checks, b.scopes, e⟩ = blockFlags t33 o33 o31 a r b := by
+  cases b; rfl
+
+/-- **A block of an authorizer snapshot reads back as itself** (its symbols and public keys are
+    kept in the snapshot's own tables, not in the block message). -/
+theorem snapshot_block_round_trip (b : TBlock) (hsy : b.symbols = []) (hpk : b.publicKeys = [])
+    (hg : loadGate b.version false b.core = true) (hc : contentOK b = true) :
+    protoToSnapshotBlock (snapshotBlockToProto b) = .ok b := by
+  simp only [loadGate, Bool.and_eq_true, decide_eq_true_eq, Bool.not_eq_true', Bool.and_eq_false_imp] at hg
+  obtain ⟨⟨⟨⟨⟨hmin, hmax⟩, hsc⟩, hkinds⟩, htp⟩, hcompat⟩ := hg
+  simp only [contentOK, Bool.and_eq_true, Bool.not_eq_true'] at hc
+  obtain ⟨⟨⟨⟨⟨hf, hr⟩, hck⟩, hs⟩, hkeys⟩, hsym⟩ := hc
+  have h1 := mapR_map protoToPred predToProto b.core.facts (fun p hp => pred_rt p (List.all_eq_true.mp hf p hp))
+  have h2 := mapR_map (protoToRule b.version) ruleToProto b.core.rules (fun q hq => rule_rt b.version q (List.all_eq_true.mp hr q hq))
+  have h3 := mapR_map (protoToCheck b.version) checkToProto b.core.checks (fun c hx => check_rt b.version c (List.all_eq_true.mp hck c hx))
+  have h4 := mapR_map protoToScope scopeToProto b.core.scopes (fun s hx => scope_rt s (List.all_eq_true.mp hs s hx))
+  have hc1 : (Gen.minSchemaVersion ≤ b.version ∧ b.version ≤ Gen.maxSchemaVersion) := ⟨hmin, hmax⟩
+  have hkind : ¬ (b.version = Gen.minSchemaVersion ∧ ((b.core.checks.map checkToProto).any fun c => c.kind.isSome) = true) := by
+    intro ⟨hv, hany⟩
+    have hlt : b.version < Gen.maxSchemaVersion := by rw [hv]; decide
+    have h31 : b.version < Gen.datalog31 := by rw [hv]; decide
+    have hk := hkinds hlt
+    rw [List.any_map] at hany
+    obtain ⟨c, hcm, hcs⟩ := List.any_eq_true.mp hany
+    have hc' := (List.any_eq_false.mp hk) c hcm
+    simp only [h31, decide_true, Bool.true_and, Bool.or_eq_true, not_or] at hc'
+    cases hk' : c.kind with
+    | one => simp only [Function.comp, checkToProto, hk'] at hcs; exact absurd hcs (by decide)
+    | all => rw [hk'] at hc'; exact absurd hc'.1 (by decide)
+    | reject => rw [hk'] at hc'; exact absurd hc'.1 (by decide)
+  have hflags := blockFlags_extKey codeTerm33 codeOp33 codeOp31 Gen.checkAllDetected Gen.rejectDetected b.core none
+  unfold protoToSnapshotBlock
+  simp only [snapshotBlockToProto, Option.getD_some, hc1, and_self, decide_true, Bool.not_true, Bool.false_eq_true, ↓reduceIte, h1, h2,
+    hkind, h3, h4, hflags, compatErr_none _ _ hcompat]
+  obtain ⟨sy, cx, v, core, pk⟩ := b
+  obtain ⟨f, r, c, sc, e⟩ := core
+  simp only at hsy hpk
+  subst hsy; subst hpk
+  cases e <;> rfl
+
+/-- a block with a `reject if` check has the 3.3 flag (`get_schema_version`) -/
+theorem reject_sets_v33 (b : Block) (c : Check) (hc : c ∈ b.checks) (hk : c.kind = .reject) :
+    (blockFlags codeTerm33 codeOp33 codeOp31 Gen.checkAllDetected Gen.rejectDetected b).v33 = true := by
+  have : (b.checks.any fun c => c.kind == .reject) = true := List.any_eq_true.mpr ⟨c, hc, by simp [hk]⟩
+  simp only [blockFlags, Gen.rejectDetected, Bool.true_and, this, Bool.true_or]
+
+theorem compat33_of_flag (f : Flags) (v : Nat) (hf : f.v33 = true) (hv : v < Gen.datalog33) : compatErr f v = some .compat33 := by
+  simp only [compatErr, Gen.gate33Unconditional, Bool.true_or, Bool.true_and, hf, Bool.and_true, hv, decide_true, ↓reduceIte]
+
+/-- **What the snapshot reader accepts passes the version gate too** (the gate of first-party
+    blocks: the snapshot reader has no rule for third-party blocks below 3.2, see the witness below). -/
+theorem snapshot_accepted_passes_gate (p : PSnapBlock) (b : TBlock) (h : protoToSnapshotBlock p = .ok b) :
+    loadGate b.version false b.core = true := by
+  unfold protoToSnapshotBlock at h
+  simp only at h
+  split at h
+  · cases h
+  · rename_i hrange
+    split at h
+    · cases h
+    · rename_i facts hfacts
+      split at h
+      · cases h
+      · rename_i rules hrules
+        split at h
+        · cases h
+        · rename_i hgate
+          split at h
+          · cases h
+          · rename_i checks hchecks
+            split at h
+            · cases h
+            · rename_i scopes hscopes
+              split at h
+              · cases h
+              · rename_i hcompat
+                have hr : Gen.minSchemaVersion ≤ p.version.getD 0 ∧ p.version.getD 0 ≤ Gen.maxSchemaVersion := by
+                  simpa using hrange
+                have key : ∀ e : Option Nat, loadGate (p.version.getD 0) false ⟨facts, rules, checks, scopes, e⟩ = true := by
+                  intro e
+                  have hflags := blockFlags_extKey codeTerm33 codeOp33 codeOp31 Gen.checkAllDetected Gen.rejectDetected
+                    ⟨facts, rules, checks, scopes, none⟩ e
+                  simp only at hflags
+                  simp only [loadGate, Bool.and_eq_true, decide_eq_true_eq, Bool.not_eq_true', Bool.and_eq_false_imp]
+                  refine ⟨⟨⟨⟨⟨hr.1, hr.2⟩, ?_⟩, ?_⟩, ?_⟩, ?_⟩
+                  · intro hv
+                    rw [Bool.or_eq_false_iff]
+                    constructor
+                    · apply List.any_eq_false.mpr
+                      intro q hq
+                      obtain ⟨r, _, hr'⟩ := mapR_mem _ _ _ hrules q hq
+                      simp [rule_scopes_gate _ r q hr' hv]
+                    · apply List.any_eq_false.mpr
+                      intro c hc
+                      have hcq : (c.queries.any fun q => !q.scopes.isEmpty) = false := by
+                        apply List.any_eq_false.mpr
+                        intro q hq
+                        obtain ⟨pc, _, hpc⟩ := mapR_mem _ _ _ hchecks c hc
+                        obtain ⟨r, _, hr'⟩ := (check_kind_decoded _ pc c hpc).2 q hq
+                        simp [rule_scopes_gate _ r q hr' hv]
+                      simp [hcq]
+                  · intro hv
+                    simp only [List.any_eq_false, Bool.or_eq_true, Bool.and_eq_true, decide_eq_true_eq, not_or, not_and]
+                    intro c hc
+                    obtain ⟨pc, hpcm, hpc⟩ := mapR_mem _ _ _ hchecks c hc
+                    have hk := (check_kind_decoded _ pc c hpc).1
+                    have hd := decoded_kind pc.kind c.kind hk
+                    refine ⟨fun h31 => ?_, fun h33 => ?_⟩
+                    · -- below 3.1 the version is the lowest one, where no check has a kind
+                      have hvmin : p.version.getD 0 = Gen.minSchemaVersion := by
+                        have : Gen.datalog31 = Gen.minSchemaVersion + 1 := by decide
+                        omega
+                      have hnone : pc.kind = none := by
+                        cases hpk : pc.kind with
+                        | none => rfl
+                        | some i =>
+                          exact absurd ⟨hvmin, List.any_eq_true.mpr ⟨pc, hpcm, by simp [hpk]⟩⟩ hgate
+                      simp [hd.1 hnone]
+                    · intro hrej
+                      have hrej' : c.kind = .reject := by simpa using hrej
+                      have hv33 := reject_sets_v33 ⟨facts, rules, checks, scopes, none⟩ c hc hrej'
+                      rw [compat33_of_flag _ _ hv33 h33] at hcompat
+                      cases hcompat
+                  · simp
+                  · rw [hflags]; exact compatible_of_compatErr _ _ hcompat
+                split at h
+                · cases h
+                · simp only [Except.ok.injEq] at h; subst h; exact key _
+                · simp only [Except.ok.injEq] at h; subst h; exact key _
+
+/-- the snapshot reader takes a third-party block that declares 3.0, which the token reader refuses -/
+theorem snapshot_third_party_below_32 :
+    (match protoToSnapshotBlock ⟨none, some 3, [], [], [], [], some (some 1)⟩ with | .ok b => b.core.extKey == some 1 | .error _ => false) = true ∧
+    (match protoToBlock ⟨[], none, some 3, [], [], [], [], []⟩ (some 1) with | .error .thirdPartyVersion => true | _ => false) = true := by
+  constructor <;> rfl
+
 /-! ## non-vacuity -/
 
 /-- a 3.3 third-party block: a fact with a set, a map and an array, a rule with a scope, a closure
